@@ -12,15 +12,15 @@
    pop = deletion of that one vertex), and only then.
 
    NOT proved (T17b-e of DESIGN; the property is PARTIAL):
-     - de Casteljau correctness of bezier_subdivide over Q (T17b)
-       (T17c, the Catmull-Rom polynomial identity, and T17d, the circum-centre
-       and arc points over the reals under libm hypotheses, ARE proved below);
+     (T17b de Casteljau subdivision, T17c the Catmull-Rom polynomial identity
+     and T17d the circum-centre and arc points under libm hypotheses ARE proved
+     below, over the reals, on definitions shared with the model)
      - the Hausdorff bound between path and exact curve (flatness 0.25, arc
        sagitta 0.1, 50 Catmull steps, 6 px osu! simplification).
    The bound is measured by the oracle of harness/src/c17.rs against curves
    evaluated exactly in f64 (de Casteljau, circumcircle, Catmull polynomial). *)
 From RM Require Import Model.ControlPoints Model.Curve Gen.Generated Proofs.BezierRefine Proofs.PathFacts
-  Proofs.CatmullFacts Proofs.ArcExact.
+  Proofs.CatmullFacts Proofs.ArcExact Proofs.DeCasteljau.
 From Coq Require Import Reals.
 Open Scope Z_scope.
 
@@ -112,6 +112,25 @@ Theorem C17_catmull_vertex_count :
   length cat = ((length points - 1) * (2 * Z.to_nat catmull_detail))%nat.
 Proof. exact catmull_length. Qed.
 Print Assumptions C17_catmull_vertex_count.
+
+(* T17b [exact arithmetic]: bezier_subdivide.  The model's subdivision
+   (avg_step / subdiv: repeated averaging of neighbours, heads -> left polygon,
+   lasts -> right polygon) is the instance, for points and (a + b) / 2 in
+   binary32, of the generic subdiv_g; for real coordinates (each coordinate
+   separately: the averaging is component-wise) the two polygons evaluate, by
+   de Casteljau's algorithm [dc], to the same curve as the parent on [0, 1/2]
+   and on [1/2, 1] *)
+Theorem C17_model_subdivision_is_generic :
+  forall n m, subdiv n m = subdiv_g avg2 pos0 n m.
+Proof. exact model_subdiv. Qed.
+Print Assumptions C17_model_subdivision_is_generic.
+
+Theorem C17_de_casteljau_subdivision :
+  forall n (m : list R), length m = S n ->
+  let '(L, Rr) := subdiv_g avgR 0%R (S n) m in
+  forall t : R, dc n t L = dc n (t / 2) m /\ dc n t Rr = dc n ((1 + t) / 2) m.
+Proof. exact de_casteljau_subdivision. Qed.
+Print Assumptions C17_de_casteljau_subdivision.
 
 (* T17c [exact arithmetic]: the Catmull coefficient/evaluation formulas of the
    model are written once over a record of scalar operations; read over the
